@@ -52,7 +52,7 @@ def gen(st, tier):
         # concurrent readers: one reads a damaged file with MAC checking on while another reads with other settings
         from sim import conc
         pre, ch = conc.sched_spec(st["schedule"])
-        spec = files.file_spec(w, kind="bf3", p_enc=0.3, max_len=80)
+        spec = files.file_spec(w, kind="bf3", p_enc=0.3, max_len=80, allow_many=False)
         if not spec["obj"]["components"]:
             spec["obj"]["components"].append(G.component_spec(w, max_len=60))
         spec.update(conc=True, preempt=pre, choices=ch,
